@@ -8,7 +8,7 @@ import copy
 from ..cfg import build_cfg, calls_in, node_calls
 from ..core import Ctx, property_info, rule, share
 from ..model import AnalysisError, ClassInfo, FuncInfo, anon_text, walk_no_nested
-from ..q import Dispatch, alternatives, forms, call_name_of, guarded_subscripts, names_from_calls, return_values, A, MUTATORS, asrc, is_self_attr, kwarg, root_name, stores, unparse
+from ..q import Dispatch, alternatives, flow_conditions, flows, forms, call_name_of, guarded_subscripts, names_from_calls, return_values, A, MUTATORS, asrc, is_self_attr, kwarg, root_name, stores, unparse
 
 SER = "xsdata.formats.dataclass.serializers"
 PAR = "xsdata.formats.dataclass.parsers"
@@ -409,8 +409,23 @@ def node_protocol(ctx: Ctx) -> None:
         init = s.find_method("__init__")
         if init is None:
             continue
-        vals = [unparse(v) for _, tgt, v in stores(init.node) if is_self_attr(tgt, "ns_map") and v is not None]
-        ok = vals in (["ns_map"], ["parent.ns_map if ns_map is None else ns_map"], ["{}"])
+        g = build_cfg(init.node)
+        vals = []
+        ok = True
+        for st, tgt, v in stores(init.node):
+            if is_self_attr(tgt, "ns_map") and v is not None:
+                n = g.node_of(st)
+                for leaf, chain in flows(init, n, v) if n is not None else [(v, [])]:
+                    txt = unparse(leaf)
+                    vals.append(txt)
+                    if txt == "ns_map" or txt == "{}":
+                        continue
+                    # the parent's map only when no map was given
+                    conds = flow_conditions(init, n, chain) if n is not None else set()
+                    if txt == "parent.ns_map" and any((t == "_isNone" and pol) or (t == "_isnotNone" and not pol) for t, pol in conds):
+                        continue
+                    ok = False
+        ok = ok and bool(vals)
         ctx.ob(f"{s.name} stores the in-scope map it was given", ok, at=init, construct=f"{s.name} ns_map value", msg=f"stores {vals}")
 
 
